@@ -1,0 +1,14 @@
+//go:build verif
+
+// Contracts for package rsynccommon, checked by /verif/govc. Comments only.
+
+package rsynccommon
+
+//@ func rsynccommon.SumSizesSqroot
+//@   pure
+//@   requires 0 <= contentLen && contentLen <= 1099511627776
+//@   ensures result.BlockLength >= 700 && result.ChecksumLength == 16
+//@   ensures result.ChecksumCount >= 0 && 0 <= result.RemainderLength && result.RemainderLength < result.BlockLength
+//@   ensures [count] result.ChecksumCount * result.BlockLength >= contentLen && (result.ChecksumCount - 1) * result.BlockLength < contentLen || contentLen == 0 && result.ChecksumCount == 0
+//@   ensures [remainder] result.RemainderLength == mod(contentLen, result.BlockLength)
+//@   ensures len(result.Sums) == 0
